@@ -218,7 +218,8 @@ def oracle_det(rng, sets, n=4):
             th = rng.uniform(-3, 3)
             # the same angles and durations are requested twice on the same gate-set object, the second time with the two qubits'
             # calibration values exchanged (another qubit, same pulse): the law is per call, whatever was sampled before
-            for (T1c, T2c, pc, T1t, T2t, pt) in ((T1c, T2c, pc, T1t, T2t, pt), (T1t, T2t, pt, T1c, T2c, pc)):
+            # ... and a third time with pure dephasing switched off by the package's own convention T2 = 0 (T1 finite): the law does not involve T2
+            for (T1c, T2c, pc, T1t, T2t, pt) in ((T1c, T2c, pc, T1t, T2t, pt), (T1t, T2t, pt, T1c, T2c, pc), (T1c, 0.0, pc, T1t, 0.0, pt)):
                 E1c, E1t = T1c / sc, T1t / sc      # effective T1 seen by the factories
                 chk = [("X", g.X(a, pc, T1c, T2c), nf.X(a, 0, 0, 0), det_pred(2, [(TG, E1c)]), (a, pc, T1c, T2c)),
                        ("SX", g.SX(a, pc, T1c, T2c), nf.SX(a, 0, 0, 0), det_pred(2, [(TG, E1c)]), (a, pc, T1c, T2c)),
